@@ -205,7 +205,7 @@ impl<'r> TryFrom<&'r [u8]> for Response<'r> {
                 if byte_count + 2 > bytes.len() {
                     return Err(Error::BufferSize);
                 }
-                let data = &bytes[2..2 + byte_count];
+                let data = &bytes[2..2 + quantity * 2];
                 let data = Data { data, quantity };
 
                 match FunctionCode::new(fn_code) {
